@@ -75,7 +75,8 @@ func runE6(id string, start time.Time) int {
 	scratch := h.Scratch(id)
 	defer os.RemoveAll(scratch)
 	bin := filepath.Join(scratch, "race.test")
-	cmd := exec.Command("go", "test", "-race", "-c", "-tags", "verif", "-o", bin, "./race")
+	args := append([]string{"test", "-race", "-c", "-tags", "verif"}, h.ModArgs()...)
+	cmd := exec.Command("go", append(args, "-o", bin, "./race")...)
 	cmd.Dir = filepath.Join(h.VerifDir(), "harness")
 	env := []string{}
 	for _, e := range h.GoEnv() {
